@@ -74,6 +74,18 @@ fn strat(t: Tier) -> proptest::strategy::BoxedStrategy<FragCase> {
     }
 }
 
+fn run_long_frag(ctx: &Ctx) -> SubReport {
+    let mk = |shard: usize, shards: usize| crate::fragcase::long_cases().into_iter().enumerate().filter(move |(i, _)| i % shards.min(4) == shard && shard < 4).map(|(_, c)| c);
+    let mut r = run_enumerated(ctx, "long_sequences", &mk, &eval);
+    r.exhaustive = false;
+    r.notes.push("fixed list: a 70 000-sample segment, 400 two-sample segments with empty flushes, 3 MiB / 1 MiB+1 / empty samples, 255/256/257/65 536 samples per segment".into());
+    r
+}
+fn replay_long_frag(v: &serde_json::Value) -> Result<Outcome, String> {
+    let c: crate::fragcase::FragCase = serde_json::from_value(v.clone()).map_err(|e| e.to_string())?;
+    Ok(eval(&c))
+}
+
 pub fn def() -> PropertyDef {
     PropertyDef {
         fuzz_targets: &["c10_frag"],
@@ -84,6 +96,9 @@ pub fn def() -> PropertyDef {
                queue model after every step; every segment is parsed and each sample located through tfhd/trun data_offset; a differential run \
                without the queries checks purity; non-trivial = >=2 non-empty flushes and >=2 distinct sample sizes",
         assumptions: &["DTS below 2^41 and gaps below 2^31 ticks (field-width boundaries belong to C16, panics to C12)"],
-        subs: vec![Box::new(PSub { name: "queue_model", quick: 40000, thorough: 1200000, strat, eval })],
+        subs: vec![
+            Box::new(PSub { name: "queue_model", quick: 40000, thorough: 1200000, strat, eval } ),
+            Box::new(ESub { name: "long_sequences", run: run_long_frag, replay: replay_long_frag }),
+        ],
     }
 }
